@@ -4,6 +4,7 @@
    operations (theorem 7).  The tie to the code is by execution: `bin/check C03` compares the model's
    traces with recorded real ones and opens every crash image of the real traces with the real code. *)
 From BC Require Import Store.Codec Store.CodecProofs Store.Engine Store.Log Store.Cons Store.Inv Store.Refine Store.Merge Store.Theorems Store.Crash Store.CrashScript Store.CrashMerge.
+From BC Require Resp.Frame Resp.Conn Resp.OverEngine.
 Open Scope N_scope.
 
 (* 1. At every operation boundary of every ready script — merges included — the directory can be
@@ -140,6 +141,24 @@ Theorem C03_crash_safe : forall c ops s0, run_ready c init ops -> rep s0 (s_dir 
     exists n, (n <= length ops)%nat /\ img_ok img (abs (state_after c init ops n)).
 Proof. exact crash_safe. Qed.
 Print Assumptions C03_crash_safe.
+
+(* 7s. ... for the SERVER: the per-connection loop (Resp/OverEngine.v) turns whatever bytes a connection sends, in
+       whatever pieces, into a script of sets, gets and deletes on the engine ([script_of]: the commands accepted
+       before the first rejected frame, one delete per key of a DEL; [handle_is_script]: the loop's engine state is
+       the state after that script).  Every crash image of the system calls of that script opens to the map after
+       some prefix of it: no acknowledged command of any connection is lost by a crash. *)
+Theorem C03_server_crash_safe : forall c segs s0,
+  let ops := Resp.OverEngine.script_of (Resp.Conn.read_all (Resp.Frame.fixed Resp.Frame.Release) segs []) in
+  rep s0 (s_dir init) -> trace_wf (snd (run c init ops)) ->
+  forall img, image_of s0 (snd (run c init ops)) img ->
+    exists n, (n <= length ops)%nat /\ img_ok img (abs (state_after c init ops n)).
+Proof. exact Resp.OverEngine.server_crash_safe. Qed.
+Print Assumptions C03_server_crash_safe.
+
+Theorem C03_server_loop_is_that_script : forall c rs s m out, Resp.OverEngine.denotes s m ->
+  snd (fst (Resp.OverEngine.handle_e c s rs out)) = fst (fst (run c s (Resp.OverEngine.script_of rs))).
+Proof. exact Resp.OverEngine.handle_is_script. Qed.
+Print Assumptions C03_server_loop_is_that_script.
 
 (* 7'. The same, sharp: a crash DURING operation [o], after the operations [ops1] were acknowledged,
        recovers to the state with all of [ops1], and [o] applied entirely or not at all. *)
